@@ -87,10 +87,37 @@ impl TraitCodegen<'_> {
             match &trait_fn.default_body {
                 // The desugared form of an `async fn` with a default body
                 Some(body) if trait_fn.originally_async && trait_fn_sig.asyncness.is_none() => {
+                    // What an `async fn` does: every parameter moves into the future (used or not),
+                    // and the body is checked against the declared return type.
+                    let bindings = param_bindings(&trait_fn.entrait_sig.sig);
+                    let output = match &trait_fn.entrait_sig.sig.output {
+                        syn::ReturnType::Default => Some(quote! { () }),
+                        syn::ReturnType::Type(_, ty) => {
+                            let tokens = ty.to_token_stream();
+                            if mentions_impl_trait(tokens.clone()) {
+                                None
+                            } else {
+                                Some(tokens)
+                            }
+                        }
+                    };
+                    let body = match output {
+                        Some(output) => quote! {
+                            let __ret: #output = #body;
+                            #[allow(unreachable_code)]
+                            __ret
+                        },
+                        None => quote! { #body },
+                    };
                     quote! {
                         #(#types)*
                         #(#attrs)*
-                        #trait_fn_sig { async move #body }
+                        #trait_fn_sig {
+                            async move {
+                                #(let _ = &#bindings;)*
+                                #body
+                            }
+                        }
                     }
                 }
                 Some(body) => quote! {
@@ -135,6 +162,37 @@ impl TraitCodegen<'_> {
             }
         })
     }
+}
+
+/// The names bound by the parameter patterns of a fn
+fn param_bindings(sig: &syn::Signature) -> Vec<syn::Ident> {
+    use syn::visit_mut::VisitMut;
+
+    struct Bindings(Vec<syn::Ident>);
+
+    impl VisitMut for Bindings {
+        fn visit_pat_ident_mut(&mut self, pat_ident: &mut syn::PatIdent) {
+            self.0.push(pat_ident.ident.clone());
+            syn::visit_mut::visit_pat_ident_mut(self, pat_ident);
+        }
+    }
+
+    let mut bindings = Bindings(vec![]);
+    for input in &sig.inputs {
+        if let syn::FnArg::Typed(pat_type) = input {
+            bindings.visit_pat_mut(&mut pat_type.pat.as_ref().clone());
+        }
+    }
+    bindings.0
+}
+
+/// `impl Trait` cannot be written as the type of a `let`
+fn mentions_impl_trait(stream: TokenStream) -> bool {
+    stream.into_iter().any(|token| match token {
+        proc_macro2::TokenTree::Ident(ident) => ident == "impl",
+        proc_macro2::TokenTree::Group(group) => mentions_impl_trait(group.stream()),
+        _ => false,
+    })
 }
 
 /// An associated type of an entraited trait, and its position among the methods
